@@ -37,6 +37,7 @@ MCIsoMatVer == [i \in MCIsos |-> IF i = "I2" THEN "m0" ELSE "m1"]
 MCIsoAdsVer == [i \in MCIsos |-> "a0"]
 \* Impl as first seen; the driver writes a derived cfg with "Traits = {...}" for the traits it probed
 MCTraits == AllTraits
+MCIsoTemp == [i \in MCIsos |-> IF i = "I1" THEN "T80.5" ELSE IF i = "I2" THEN "T0" ELSE "T83.5"]
 MCIsoClass == [i \in MCIsos |-> IF i = "I2" THEN "coerce" ELSE "plain"]
 
 VARIABLES db, model, reg, hist
@@ -49,7 +50,17 @@ Fresh == [ads |-> [a \in Ads |-> Absent], mats |-> [m \in Mats |-> Absent],
 Reg0 == [mats |-> [m \in Mats |-> 0], ads |-> [a \in Ads |-> 0]]
 
 O(op, d, k, v, ow, ai, am, aa, by, cm, ca) ==
-  [op |-> op, d |-> d, k |-> k, v |-> v, ow |-> ow, ai |-> ai, am |-> am, aa |-> aa, by |-> by, cm |-> cm, ca |-> ca]
+  [op |-> op, d |-> d, k |-> k, v |-> v, ow |-> ow, ai |-> ai, am |-> am, aa |-> aa, by |-> by, cm |-> cm, ca |-> ca,
+   ct |-> "*", cy |-> "*"]
+\* criteria of isotherms_from_db: none, one column (every value incl. one that matches nothing), pairs
+Temps == {IsoTemp[i] : i \in Isos}
+NM == "nomatch"
+Crits == TLCEval(
+       {<<"*", "*", "*", "*">>}
+  \cup {<<m, "*", "*", "*">> : m \in Mats \cup {NM}} \cup {<<"*", a, "*", "*">> : a \in Ads \cup {NM}}
+  \cup {<<"*", "*", t, "*">> : t \in Temps \cup {NM}} \cup {<<"*", "*", "*", y>> : y \in ITY \cup {NM}}
+  \cup {<<m, a, "*", "*">> : m \in Mats, a \in Ads} \cup {<<m, "*", t, "*">> : m \in Mats, t \in Temps}
+  \cup {<<"*", a, t, "tp">> : a \in Ads, t \in Temps})
 BOOL == {TRUE, FALSE}
 UpTy == TyVer \ {Auto}
 Ops == TLCEval(
@@ -69,7 +80,7 @@ Ops == TLCEval(
 \cup {O("iso_del", d, k, "", FALSE, FALSE, FALSE, FALSE, by, "*", "*") : d \in Files, k \in Isos, by \in {"id", "obj", "retrieved"}}
 \cup {O(op, d, "", "", FALSE, FALSE, FALSE, FALSE, "", "*", "*") : op \in {"ads_from", "mats_from", "apt_from", "mpt_from", "ity_from", "ipt_from"}, d \in Files}
 \cup {O("session", d, "", "", FALSE, FALSE, FALSE, FALSE, "", "*", "*") : d \in {CHOOSE d \in Files : TRUE}}
-\cup {O("iso_from", d, "", "", FALSE, FALSE, FALSE, FALSE, "", cm, ca) : d \in Files, cm \in Mats \cup {"*"}, ca \in Ads \cup {"*"}})
+\cup {[O("iso_from", d, "", "", FALSE, FALSE, FALSE, FALSE, "", c[1], c[2]) EXCEPT !.ct = c[3], !.cy = c[4]] : d \in Files, c \in Crits})
 
 \* the isotherm-property-type table behaves like the other type tables (same SpecTyTo/SpecDel): its
 \* operations take part in the state space only when WithIPT (thorough tier), always in StepLaws
